@@ -14,7 +14,8 @@ from ..decisions import Decisions
 
 PID = 'C07'
 LEVEL = 'exploration'
-RULE = ('one case = one simulated history: configuration (designs 2-10, workers 2-4, evaluator simple/gradient/'
+RULE = ('one case = one simulated history: a batch history, a store history with concurrent writers, or a complete NSGA-II / '
+        'eps-MOEA / OMOPSO / SMPSO / PSOGA / Sweep run with 2-4 workers compared with the same run executed serially; configuration (designs 2-10, workers 2-4, evaluator simple/gradient/'
         'worst-case, store dummy/SQLite, n, m, constraints, box) + scheduling policy (random/pct/fifo/lifo/rr/starve) '
         '+ stall plan, all drawn from the run seed; the scheduler decides the interleaving at task start, objective '
         'entry/exit, connect, every SQL statement, commit and lock-wait wake-up.  A case is non-trivial when at least '
@@ -79,10 +80,144 @@ def _family(ind):
 
 
 def run_one(D, opts=None):
-    fam = D.weighted('cfg', 'family', (4, 1))
+    fam = D.weighted('cfg', 'family', (4, 1, 2))
     if fam == 1:
         return _run_store(D)
+    if fam == 2:
+        return _run_whole(D)
     return _run_batch(D)
+
+
+def _ledger(p):
+    return [(i.id, [float(x) for x in i.vector], [float(c) for c in i.costs], [float(c) for c in i.costs_signed],
+             i.state.name if hasattr(i.state, 'name') else i.state, i.population_id) for i in p.individuals]
+
+
+def _run_whole(D):
+    """a complete run with 2-4 simulated workers against the same run executed serially (same SUT seed: without
+    objective failures all PRNG draws happen in the main task, so the two runs must be identical)"""
+    from artap.individual import Individual
+    from .. import seams
+    sim = W.begin_run(D)
+    ctx = core.Ctx(PID, D, sim)
+    kind = D.pick('cfg', 'walgo', ('nsga2', 'epsmoea', 'omopso', 'smpso', 'psoga', 'sweep'))
+    workers = 2 + D.dec('cfg', 'workers', 3)
+    use_db = D.weighted('cfg', 'store', (1, 3)) == 1
+    N = 2 + D.dec('cfg', 'wN', 6)
+    G = 1 + D.dec('cfg', 'wG', 3)
+    sut_seed = D.dec('sut', 'seed', 1 << 30)
+    ctx.sample = {'family': 'run', 'algorithm': kind, 'N': N, 'G': G, 'workers': workers, 'store': 'sqlite' if use_db else 'dummy',
+                  'policy': sim.policy, 'stall_p': sim.stall_p, 'timed': sim.timed}
+    site = 'Evaluator.evaluate_parallel'
+    dbs = []
+
+    def one(nworkers, tag, hook):
+        Individual.counter = 0
+        seams.RNG.begin(D, sut_seed, 0.0)
+        w = W.World(D, sim, fail='none', precision=0, name='c07w')
+        db = None
+        if use_db:
+            db = W.fresh_db('c07w' + tag)
+            dbs.append((w, db))
+            W.attach_store(w, db)
+        if kind == 'sweep':
+            from artap.algorithm_sweep import SweepAlgorithm
+            from artap import operators as ops
+            gen = ops.RandomGenerator(w.problem.parameters)
+            gen.init(N)
+            with W.quiet():
+                alg = SweepAlgorithm(w.problem, generator=gen)
+            alg.options['max_processes'] = nworkers
+        else:
+            alg = W.make_algorithm(kind, w, N, G, workers=nworkers)
+        if hook:
+            real = alg.evaluator.evaluate
+
+            def spy(individuals):
+                batch = list(individuals)
+                r = real(individuals)
+                if db and not ctx.violations:
+                    _rows_at_batch_end(ctx, db, batch)
+                return r
+            alg.evaluator.evaluate = spy
+        with W.quiet():
+            alg.run()
+        return w, db
+
+    try:
+        sim.ev('serial_twin')
+        wt, dbt = one(1, 't', False)
+        sim.ev('parallel_run')
+        try:
+            wp, dbp = one(workers, 'p', True)
+        except kernel.Deadlock:
+            ctx.violation('deadlock', site, 'all workers blocked with no deadline during a %s run' % kind)
+            return core.result(ctx, sim)
+        except kernel.StepCap:
+            raise
+        except Exception as e:
+            ctx.violation('exception_in_worker', site, '%s run with %d workers raised %r; the serial run of the same seed finished'
+                          % (kind, workers, e))
+            return core.result(ctx, sim)
+        lt, lp = _ledger(wt.problem), _ledger(wp.problem)
+        ctx.check()
+        if len(lt) != len(lp):
+            ctx.violation('differs_from_serial', site, 'parallel run recorded %d individuals, serial run %d' % (len(lp), len(lt)))
+        else:
+            for k, (a, b) in enumerate(zip(lp, lt)):
+                ctx.check()
+                if a != b:
+                    ctx.violation('differs_from_serial', site, 'recorded individual %d: parallel %r, serial %r' % (k, a, b))
+                    break
+        ct = sorted(tuple(c.vector) for c in wt.calls)
+        cp = sorted(tuple(c.vector) for c in wp.calls)
+        if ct != cp:
+            ctx.violation('call_count', site, 'objective saw %d calls in the parallel run, %d in the serial run (multisets of vectors differ)'
+                          % (len(cp), len(ct)))
+        if use_db and not ctx.violations:
+            _, rows, _ = _view_rows(dbp)
+            _, rowst, _ = _view_rows(dbt)
+            counts, _ = _raw_counts(dbp)
+            for i, c in counts.items():
+                if c != 1:
+                    ctx.violation('row_duplicate', 'SqliteDataStore.sync_individual', 'id %r has %d rows' % (i, c))
+            if sorted(rows) != sorted(rowst):
+                ctx.violation('row_missing', 'SqliteDataStore.sync_individual', 'parallel store holds ids %r..., serial store %r...'
+                              % (sorted(rows)[:8], sorted(rowst)[:8]))
+            else:
+                for i in rows:
+                    ctx.check()
+                    if _row_of(rows[i]) != _row_of(rowst[i]):
+                        ctx.violation('row_ne_final', 'SqliteDataStore.sync_individual', 'row id %d: parallel %r, serial %r'
+                                      % (i, _row_of(rows[i]), _row_of(rowst[i])))
+                        break
+        ctx.sig('whole', kind, N, G, workers, use_db, len(lp), tuple(sim.sigs[:3]),
+                tuple(sorted((k, v) for k, v in sim.stats.items() if k in ('stall', 'busy_timeout'))))
+    finally:
+        for w, db in dbs:
+            w.problem.data_store = None
+            W.remove_db(db)
+    return core.result(ctx, sim)
+
+
+def _rows_at_batch_end(ctx, db, batch):
+    site = 'SqliteDataStore.sync_individual'
+    try:
+        _, rows, _ = _view_rows(db)
+    except Exception as e:
+        ctx.violation('row_missing', site, 'store unreadable when evaluate() returned: %r' % (e,))
+        return
+    for k, x in enumerate(batch):
+        if x.state != x.State.EVALUATED:
+            continue
+        ctx.check()
+        if x.id not in rows:
+            ctx.violation('row_missing', site, 'evaluated design %d (id %d) has no row when evaluate() returns' % (k, x.id))
+            return
+        if _row_of(rows[x.id]) != _row_fields(x):
+            ctx.violation('row_ne_final', site, 'row of design %d (id %d) %r differs from its data %r when evaluate() returns'
+                          % (k, x.id, _row_of(rows[x.id]), _row_fields(x)))
+            return
 
 
 def _run_batch(D):
